@@ -294,7 +294,41 @@ def h_drop_and_references(h):
         h.close(refs[pos], want, "reference-value-as-configured")
 
 
+def h_reuse(h):
+    """history: a slicer that has already sliced one vector slices the next one like a fresh slicer would"""
+    I = shim.mod("intervals")
+    kind = h.cfg["slicer"]
+
+    def make():
+        if kind == "width":
+            return I.WidthOfIntervalSlicer(1.0, min_n_points=1, min_n_intervals=1)
+        if kind == "number":
+            return I.NumberOfIntervalsSlicer(2, min_n_points=1, min_n_intervals=1)
+        return I.PointsPerIntervalSlicer(2, min_n_points=1, min_n_intervals=1, reference=(lambda a: a.sum() / len(a)))
+
+    n = h.cfg["n"]
+    first = h.reals("a", n, 0.0, 3.0)
+    second = h.reals("b", n, 0.0, 6.0)
+    # both vectors ascending (the order of the observations is the subject of the other harnesses; here it only
+    # multiplies paths): what matters is that the two vectors have different ranges
+    for v in (first, second):
+        for i in range(n - 1):
+            h.assume(v[i + 1] - v[i] >= 0.011)
+    used = make()
+    used.slice_(first)
+    got = used.slice_(second)
+    want = make().slice_(second)
+    h.reach()
+    h.check(len(got[0]) == len(want[0]), "same-number-of-intervals-as-a-fresh-slicer", f"{len(got[0])} vs {len(want[0])}")
+    for k in range(min(len(got[0]), len(want[0]))):
+        h.check([bool(v) for v in got[0][k]] == [bool(v) for v in want[0][k]], "same-masks-as-a-fresh-slicer")
+        h.close(got[1][k], want[1][k], "same-references-as-a-fresh-slicer")
+        h.close(list(got[2][k]), list(want[2][k]), "same-boundaries-as-a-fresh-slicer")
+
+
 def obligations(tier):
+    for kind in ("width", "number", "points"):
+        yield ("reuse", h_reuse, {"slicer": kind, "n": 3 if tier == "quick" else 4}, {"max_paths": 20000})
     Ks = range(1, 7) if tier == "quick" else range(1, 13)
     for K in Ks:
         for ro in (True, False):
